@@ -378,6 +378,13 @@ func GenWorld(rng *rand.Rand, p Profile) *World {
 	if p.DedupHeavy {
 		w.Paths = []string{"", "x", "y", "x/p"}
 	}
+	// About one world in nine allows no redundant request at all: the first
+	// Synchronize of a worker that does not mention its task fails the task.
+	// Derived from the world instead of drawn, so that the random streams of
+	// all other worlds stay what they were.
+	if (len(w.Actions)*7+len(w.Workers)*3+w.Cfg.RetryCount)%9 == 0 {
+		w.Cfg.RetryCount = 0
+	}
 	return w
 }
 
